@@ -121,12 +121,12 @@ def mag_class(e):
 # ---------------------------------------------------------------------------------------------
 # library access
 
-def lib_dea3(v0, v1, v2, **kw):
+def lib_dea3(v0, v1, v2, *pos, **kw):
     from numdifftools.extrapolation import dea3
     with warnings.catch_warnings():
         warnings.simplefilter('ignore')
         with np.errstate(all='ignore'):
-            return dea3(v0, v1, v2, **kw)
+            return dea3(v0, v1, v2, *pos, **kw)
 
 
 def scalar_call(e):
@@ -363,6 +363,18 @@ def check_array(shape, triples):
             probs.append(('elementwise-mismatch:' + sname,
                           'element %d of a %s call: (%r, %r), scalar call on %r: (%r, %r)'
                           % (i, sname, r.ravel()[i], a.ravel()[i], triples[i], ref_r[i], ref_a[i])))
+        # the same terms as (nested) Python lists and as tuples ("array-like"), symmetric given positionally
+        if shape:
+            for cname, conv in (('lists', lambda c: c.tolist()), ('tuples', lambda c: tuple(c.ravel().tolist()) if c.ndim == 1 else c.tolist())):
+                try:
+                    r2, a2 = lib_dea3(conv(cols[0]), conv(cols[1]), conv(cols[2]), False)
+                    calls += 1
+                    if not (bits(np.asarray(r2)) == bits(r) and bits(np.asarray(a2)) == bits(a)):
+                        probs.append(('array-like-form-differs:%s:%s' % (cname, sname), 'terms given as %s: (%r, %r), as ndarrays (%r, %r)'
+                                      % (cname, np.asarray(r2).tolist(), np.asarray(a2).tolist(), r.tolist(), a.tolist())))
+                except Exception as ex:      # noqa: BLE001
+                    probs.append(('raised-%s:array-like-form:%s:%s' % (type(ex).__name__, cname, sname),
+                                  'dea3 on terms given as %s (%s) raised %s: %s' % (cname, sname, type(ex).__name__, ex)))
         if True in outs:
             rs, as_ = outs[True]
             if len(r) > 1:
